@@ -81,11 +81,26 @@ func Apply(dt interface{}, o Op) (ret interface{}, err error) {
 	// encodes something else than what it applied (o.Val / o.Vals stay as generated for the
 	// oracles).
 	var pokes []func()
-	o.Val = aliasArg(o.Val, &pokes)
+	_, isDoc := dt.(orda.DocumentInTx)
+	alias := func(v interface{}) interface{} {
+		if isDoc {
+			// a document takes containers by value too (it copies them when the call is made):
+			// generic JSON containers are handed over as private deep copies that are scribbled
+			// over once the call has returned
+			switch v.(type) {
+			case map[string]interface{}, []interface{}:
+				cp := copyContainers(v)
+				pokes = append(pokes, func() { scribble(cp) })
+				return cp
+			}
+		}
+		return aliasArg(v, &pokes)
+	}
+	o.Val = alias(o.Val)
 	if len(o.Vals) > 0 {
 		vs := make([]interface{}, len(o.Vals))
 		for i, v := range o.Vals {
-			vs[i] = aliasArg(v, &pokes)
+			vs[i] = alias(v)
 		}
 		o.Vals = vs
 	}
@@ -665,6 +680,50 @@ func (g *Gen) Str() string {
 		return g.Tag()
 	}
 	return hostileStrings[g.R.Intn(len(hostileStrings))] + g.Tag()
+}
+
+// copyContainers copies the generic JSON containers of v (leaves are shared).
+func copyContainers(v interface{}) interface{} {
+	switch x := v.(type) {
+	case map[string]interface{}:
+		m := make(map[string]interface{}, len(x))
+		for k, c := range x {
+			m[k] = copyContainers(c)
+		}
+		return m
+	case []interface{}:
+		a := make([]interface{}, len(x))
+		for i, c := range x {
+			a[i] = copyContainers(c)
+		}
+		return a
+	}
+	return v
+}
+
+// scribble overwrites every leaf of a container copy and adds a key to every object.
+func scribble(v interface{}) {
+	switch x := v.(type) {
+	case map[string]interface{}:
+		for k, c := range x {
+			switch c.(type) {
+			case map[string]interface{}, []interface{}:
+				scribble(c)
+			default:
+				x[k] = "scribbled"
+			}
+		}
+		x["~scribbled"] = true
+	case []interface{}:
+		for i, c := range x {
+			switch c.(type) {
+			case map[string]interface{}, []interface{}:
+				scribble(c)
+			default:
+				x[i] = "scribbled"
+			}
+		}
+	}
 }
 
 // aliasArg returns v itself, or for a non-nil pointer to a number / string / bool a pointer to a
